@@ -869,7 +869,7 @@ def histories(run, seed, quick, replay=None):
     if replay is not None:
         jobs = [replay["job"]]
     else:
-        jobs = history_corpus() + [history_job(core.rng(seed, "C11", "history", k), k) for k in range(260 if quick else 4000)]
+        jobs = history_corpus() + [history_job(core.rng(seed, "C11", "history", k), k) for k in range(260 if quick else 2500)]
     outs = core.run_worker_sharded("c11", jobs, timeout=1800)
     # (a) every returned package round-trips
     cases, owner, src_err, refused, netlist_err = [], [], 0, 0, 0
